@@ -42,6 +42,7 @@ func checkC17(c *Ctx) {
 	c17Table(c)
 	c17Options(c, validate)
 	c17ErrorText(c, exec)
+	c17NoTransportReplay(c)
 }
 
 // fieldLoadNamed: v is a load of field `name` (of any struct).
@@ -1003,4 +1004,38 @@ func classifiedByCode(c *Ctx, errf *ssa.Call) bool {
 		}
 	}
 	return false
+}
+
+// ---------------------------------------------------------------- R-no-transport-replay
+// net/http re-sends a request on its own, without telling the caller, when a reused connection dies and the request is
+// "replayable": GET/HEAD/OPTIONS/TRACE, or ANY method carrying an Idempotency-Key / X-Idempotency-Key header (bodies made
+// by http.NewRequest from a bytes.Reader can be rewound). A POST that carries such a header is therefore attempted
+// more often than the retry configuration allows — once more per attempt, and twice with no retry configured at all.
+func c17NoTransportReplay(c *Ctx) {
+	n := 0
+	for _, fn := range c.P.LibFns {
+		if !clientSide(c, fn) {
+			continue
+		}
+		ir.EachCall(fn, func(call ssa.CallInstruction) {
+			name := ir.CallName(call)
+			if name != "(net/http.Header).Set" && name != "(net/http.Header).Add" {
+				return
+			}
+			args := call.Common().Args
+			if len(args) != 3 {
+				return
+			}
+			n++
+			k, ok := ir.ConstStr(args[1])
+			if !ok {
+				return
+			}
+			if strings.EqualFold(k, "Idempotency-Key") || strings.EqualFold(k, "X-Idempotency-Key") {
+				c.R.Violate("R-no-transport-replay", "replay header set in "+fname(fn), c.Pos(call.Pos()),
+					sprintf("%s sets the %s header: net/http then treats the request as replayable and silently sends it again when a kept-alive connection is dropped — attempts beyond what the retry configuration allows", fname(fn), k))
+			}
+		})
+	}
+	c.R.Hold("R-no-transport-replay", "no request is marked replayable for net/http", "", sprintf("%d header writes of the clients examined; none sets Idempotency-Key / X-Idempotency-Key", n))
 }
